@@ -779,6 +779,9 @@ func (t *T) fail(now bool, msg string) {
 	t.mu.Lock()
 	defer t.mu.Unlock()
 
+	if msg == "" {
+		msg = "(no failure message)" // an empty t.failed means "has not failed"
+	}
 	t.failed = stopTest(msg)
 	if now {
 		panic(t.failed)
